@@ -299,7 +299,7 @@ impl<'ast, 'res> Resolver<'ast, 'res> {
             Stmt::If { cond, then_b, else_b, .. } => {
                 self.check_expr(cond);
                 self.check_boolean_expr(cond);
-                self.set_stmt_expr_class(self.classify_expr(cond));
+                self.set_stmt_expr_class(self.condition_class(cond));
                 self.check_block(then_b);
                 // Else block is optional in the grammar
                 if let Some(eb) = else_b {
@@ -310,7 +310,7 @@ impl<'ast, 'res> Resolver<'ast, 'res> {
             Stmt::Loop { cond, body, .. } => {
                 self.check_expr(cond);
                 self.check_boolean_expr(cond);
-                self.set_stmt_expr_class(self.classify_expr(cond));
+                self.set_stmt_expr_class(self.condition_class(cond));
                 self.in_loop += 1;
                 self.check_block(body);
                 self.in_loop -= 1;
@@ -1172,6 +1172,18 @@ impl<'ast, 'res> Resolver<'ast, 'res> {
                     self.check_expr(arg);
                 }
             }
+        }
+    }
+
+    /// Effect class of an `if` / `jasi` condition: evaluating the expression and then the run-time
+    /// test that its value is a boolean or null, which ends the run with `Type mismatch` for any
+    /// other value. Static types are advisory, so only a type that follows from the literals in
+    /// the expression itself rules the failure out.
+    fn condition_class(&self, cond: ExprRef<'ast>) -> ExprClass {
+        let class = self.classify_expr(cond);
+        match Self::literal_expr_type(cond) {
+            Some(ValueType::Bool | ValueType::Null) => class,
+            _ => class.join(ExprClass::PureMayTrap),
         }
     }
 
